@@ -107,41 +107,47 @@ func akaRegister(a []string) string {
 	ue := tglib.NewRanUeContext(aStr(a[0]), 7, security.AlgCiphering128NEA0, security.AlgIntegrity128NIA2)
 	ue.AuthenticationSubs = tglib.GetAuthSubscription(aStr(a[4]), aStr(a[5]), aStr(a[6]))
 	ue.AuthenticationSubs.AuthenticationManagementField = aStr(a[3])
+	uls := runRegisterUE(ue, mnc, mcc, rnd, autn)
+	var res []byte
+	if len(uls) > 1 {
+		if n := ulNasPdu(uls[1]); len(n) == 21 && n[0] == 0x7e && n[2] == 0x57 && n[3] == 0x2d && n[4] == 16 {
+			res = n[5:]
+		}
+	}
+	return "ok " + hx(res) + " " + hx(ue.Kamf) + " " + hx(ue.KnasEnc[:]) + " " + hx(ue.KnasInt[:])
+}
+
+// runRegisterUE drives the real stgutg.RegisterUE over a socketpair against an AMF side that sends the AUTHENTICATION REQUEST
+// carrying rnd / autn and then decodable messages in place of the ones RegisterUE decodes and discards; it returns the uplink
+// messages in order (REGISTRATION REQUEST, AUTHENTICATION RESPONSE, SECURITY MODE COMPLETE, INITIAL CONTEXT SETUP RESPONSE,
+// REGISTRATION COMPLETE).
+func runRegisterUE(ue *tglib.RanUeContext, mnc, mcc string, rnd, autn [16]byte) [][]byte {
 	fds, err := syscall.Socketpair(syscall.AF_UNIX, syscall.SOCK_SEQPACKET, 0)
 	if err != nil {
 		panic(err)
 	}
 	conn := sctp.NewSCTPConn(fds[0], nil)
 	defer conn.Close()
-	resCh := make(chan []byte, 1)
+	ulCh := make(chan [][]byte, 1)
 	go func() {
 		defer syscall.Close(fds[1])
-		var res []byte
-		defer func() { resCh <- res }()
+		var uls [][]byte
+		defer func() { ulCh <- uls }()
 		buf := make([]byte, 8192)
-		rd := func() []byte {
+		rd := func() bool {
 			n, err := syscall.Read(fds[1], buf)
 			if err != nil || n <= 0 {
-				return nil
+				return false
 			}
-			return append([]byte{}, buf[:n]...)
+			uls = append(uls, append([]byte{}, buf[:n]...))
+			return true
 		}
-		dl := peer2.DownlinkNASTransport(0x1122334455, 7, peer2.NasAuthenticationRequest(1, []byte{0, 0}, rnd, autn))
-		if rd() == nil { // REGISTRATION REQUEST
+		dl := peer2.DownlinkNASTransport(0x1122334455, ue.RanUeNgapId, peer2.NasAuthenticationRequest(1, []byte{0, 0}, rnd, autn))
+		if !rd() { // REGISTRATION REQUEST
 			return
 		}
 		syscall.Write(fds[1], dl)
-		m := rd() // AUTHENTICATION RESPONSE
-		if pdu, e := ngap.Decoder(m); e == nil && pdu.InitiatingMessage != nil && pdu.InitiatingMessage.Value.UplinkNASTransport != nil {
-			for _, ie := range pdu.InitiatingMessage.Value.UplinkNASTransport.ProtocolIEs.List {
-				if ie.Value.NASPDU != nil {
-					n := ie.Value.NASPDU.Value
-					if len(n) == 21 && n[0] == 0x7e && n[2] == 0x57 && n[3] == 0x2d && n[4] == 16 {
-						res = append([]byte{}, n[5:]...)
-					}
-				}
-			}
-		}
+		rd()                      // AUTHENTICATION RESPONSE
 		syscall.Write(fds[1], dl) // in place of SECURITY MODE COMMAND: decoded and discarded
 		rd()                      // SECURITY MODE COMPLETE
 		syscall.Write(fds[1], dl) // in place of INITIAL CONTEXT SETUP REQUEST
@@ -150,8 +156,30 @@ func akaRegister(a []string) string {
 		syscall.Write(fds[1], dl) // in place of CONFIGURATION UPDATE COMMAND
 	}()
 	stgutg.RegisterUE(ue, mnc, mcc, conn)
-	res := <-resCh
-	return "ok " + hx(res) + " " + hx(ue.Kamf) + " " + hx(ue.KnasEnc[:]) + " " + hx(ue.KnasInt[:])
+	return <-ulCh
+}
+
+// ulNasPdu: the NAS-PDU of an INITIAL UE MESSAGE / UPLINK NAS TRANSPORT (nil when there is none)
+func ulNasPdu(m []byte) []byte {
+	pdu, e := ngap.Decoder(m)
+	if e != nil || pdu.InitiatingMessage == nil {
+		return nil
+	}
+	if t := pdu.InitiatingMessage.Value.UplinkNASTransport; t != nil {
+		for _, ie := range t.ProtocolIEs.List {
+			if ie.Value.NASPDU != nil {
+				return ie.Value.NASPDU.Value
+			}
+		}
+	}
+	if t := pdu.InitiatingMessage.Value.InitialUEMessage; t != nil {
+		for _, ie := range t.ProtocolIEs.List {
+			if ie.Value.NASPDU != nil {
+				return ie.Value.NASPDU.Value
+			}
+		}
+	}
+	return nil
 }
 
 // akaDeriveChild runs the op in a child process so that fatal.Fatalf's os.Exit(1) can be observed.
